@@ -202,6 +202,8 @@ def perform(ctx, act, frm, to):
         if act["as"] == "array":
             val = np.array(val.proj_data)
             ctx.hold(val)
+        elif act["as"] == "points":
+            val = cc._mods()[1].Point(np.array(val.proj_data))
         ctx.obj[act["i"]] = val
     elif k == "setkey":
         rows = list(act["rows"])
@@ -687,7 +689,7 @@ def setitem_chunk(args):
                     with np.errstate(all="ignore"):
                         X, _ = cc.build(TABS, cls, dim, sx, xids)
                         Y, _ = cc.build(TABS, cls, dim, st, yids)
-                        X[i] = np.array(Y.proj_data) if as_ == "array" else Y
+                        X[i] = np.array(Y.proj_data) if as_ == "array" else cc._mods()[1].Point(np.array(Y.proj_data)) if as_ == "points" else Y
                 bad = cc.check_object(TABS, X, cls, dim, exp["shape"], ids)
             except Exception as e:
                 bad = ("raised", "%s: %s" % (type(e).__name__, e))
@@ -821,7 +823,7 @@ def run(run, replay=None):
     for (sx, st) in sorted(TABS.setitem):
         for cls in DERIVED_CLASSES:
             for dim in (2, 3):
-                for as_ in ("object", "array"):
+                for as_ in ("object", "array", "points"):
                     if quick and (len(sx) + len(st) > 3) and dim == 3:
                         continue
                     cases.append((cls, dim, sx, st, as_))
